@@ -406,7 +406,8 @@ func Validate(profile CertificateProfile, content CertificateContent) bool {
 	//check subject attributes
 	if profile.SubjectAttributes.Attributes != nil {
 		//reverse subject, since we are comparing against a string representation
-		subject := content.Subject
+		subject := make(pkix.RDNSequence, len(content.Subject))
+		copy(subject, content.Subject)
 		for i, j := 0, len(subject)-1; i < j; i, j = i+1, j-1 {
 			subject[i], subject[j] = subject[j], subject[i]
 		}
